@@ -325,6 +325,15 @@ func drive(c Single, next func() ([]int, bool), handed func() int) (trace, error
 			}
 			return tr, nil
 		}
+		if c.Comb == "Chunk" {
+			// every chunk handed out so far belongs to the consumer, spare capacity included
+			for _, e := range tr.outs {
+				full := e[:cap(e)]
+				for i := len(e); i < len(full); i++ {
+					full[i] = -99
+				}
+			}
+		}
 		tr.outs = append(tr.outs, o)
 		if len(tr.outs) > 500 {
 			return tr, vk.Violf("endless", "%s yields more than 500 responses", c.Comb)
@@ -725,12 +734,28 @@ func runSlices(c Single) ([][]int, bool) {
 	switch c.Comb {
 	case "Map":
 		return one(xslices.Map(in, mapf)), true
-	case "Filter":
-		return one(xslices.Filter(in, c.keep)), true
-	case "Compact":
-		return one(xslices.Compact(in)), true
-	case "CompactFunc":
-		return one(xslices.CompactFunc(in, c.same)), true
+	case "Filter", "Compact", "CompactFunc":
+		// These have ...InPlace twins that reuse the input's storage; the plain versions return a slice of
+		// their own: writing all over the result (spare capacity included) leaves the input as it was.
+		src := append(make([]int, 0, len(in)+3), in...)
+		var got []int
+		switch c.Comb {
+		case "Filter":
+			got = xslices.Filter(src, c.keep)
+		case "Compact":
+			got = xslices.Compact(src)
+		default:
+			got = xslices.CompactFunc(src, c.same)
+		}
+		res := append([]int{}, got...)
+		full := got[:cap(got)]
+		for i := range full {
+			full[i] = -99
+		}
+		if !reflect.DeepEqual(norm(src), norm(in)) {
+			return [][]int{{-996}}, true // the result shares storage with the input
+		}
+		return one(res), true
 	case "Chunk":
 		return xslices.Chunk(in, c.N), true
 	case "Join", "Flatten", "FlattenSlices":
